@@ -187,13 +187,17 @@ def check_chain(v, p, a, b, geo):
                 rel = max(rel, cb_ / max(float(sp.path_length), 1e-9))
         det = dict(geo, depth=float(s1.to_point[2]), n1=n1, n2=n2, beta=float(beta), near_vertical_window=bool(in_window), legs=len(subs),
                    kinds=[type(s1).__name__, type(s2).__name__], cancellation_rel=rel)
+        # conditioning: the direction of a straight leg is taken from its end points, so the junction positions' own agreement
+        # (measured <= 2e-6 of the path length) is divided by the length of the shorter of the two legs that meet here
+        short = min(float(s1.path_length), float(s2.path_length))
+        jt = 2e-5 + (2e-6 * float(p.path_length) / short * max(n1, n2) if short > 0 else 0.0)
         if np.sign(d1[2]) == np.sign(d2[2]):
             sn = abs(n1 * np.hypot(d1[0], d1[1]) - n2 * np.hypot(d2[0], d2[1]))
-            v.close("Snell's law at a transmission", float(sn), 2e-5, **det)      # measured <= 4e-6 (junction points are rebuilt per layer)
+            v.close("Snell's law at a transmission", float(sn), jt, shorter_leg_m=short, **det)      # measured <= 4e-6 for legs of ordinary length (junction points are rebuilt per layer)
             if not in_window:
-                v.close("azimuth kept at a transmission", float(abs(d1[0] * d2[1] - d1[1] * d2[0])), 1e-6, **det)
+                v.close("azimuth kept at a transmission", float(abs(d1[0] * d2[1] - d1[1] * d2[0])), 1e-6 + (jt - 2e-5), **det)
         else:
-            v.close("mirror law at a reflection", float(max(abs(d1[0] - d2[0]), abs(d1[1] - d2[1]), abs(d1[2] + d2[2]))), 2e-5, **det)
+            v.close("mirror law at a reflection", float(max(abs(d1[0] - d2[0]), abs(d1[1] - d2[1]), abs(d1[2] + d2[2]))), jt, shorter_leg_m=short, **det)
     v.close("path length == sum of the sub-path lengths", abs(sum(float(s.path_length) for s in subs) - float(p.path_length)) / float(p.path_length), 1e-12, **geo)
     v.close("time of flight == sum of the sub-path times", abs(sum(float(s.tof) for s in subs) - float(p.tof)) / float(p.tof), 1e-12, **geo)
     return nvw
